@@ -43,8 +43,9 @@ def dbl_values(name, rng, tier):
 def lines_for(meta, rng, tier, extreme=False, only=None, budget=60000):
     """-> list of protocol lines (slot E), one block per function; functions with many parameters are thinned to `budget`"""
     out = []
-    for f in sorted(meta['functions']):
-        fi = meta['functions'][f]
+    sigs = dict(meta.get('untranslated', {})); sigs.update(meta['functions'])      # untranslatable functions are still swept on the real library
+    for f in sorted(sigs):
+        fi = sigs[f]
         if fi['static'] or fi['outs'] or fi['ret'] not in ('double', 'int') or fi['file'] in ('pr_data.c', 'xrf_cross_sections_aux-private.c'): continue
         if only and f not in only: continue
         ps = [(n, t) for n, t in fi['params'] if t in ('int', 'double')]
